@@ -19,9 +19,11 @@ typedef struct S_class_tbb__detail__r1__mail_outbox outbox_t;
 #define VP_OWN_CAA 1
 static u64 chunk512[6][64] __attribute__((aligned(128))); static unsigned n512;
 static u64 chunk64[6][8] __attribute__((aligned(128))); static unsigned n64;
+static u64 chunk256[2][32] __attribute__((aligned(128))); static unsigned n256;      /* task_stream lanes (2 x 128 bytes) */
 u8* _ZN3tbb6detail2r122cache_aligned_allocateEm(u64 n) {
   if (n == 512 && n512 < 6) return (u8*)chunk512[n512++];
   if (n == 64 && n64 < 6) return (u8*)chunk64[n64++];
+  if (n == 256 && n256 < 2) return (u8*)chunk256[n256++];
   u8* p = malloc(n); __CPROVER_assume(p != 0); return p;
 }
 void _ZN3tbb6detail2r124cache_aligned_deallocateEPv(u8* p) {}
